@@ -59,6 +59,7 @@ struct Slot
 {
     T type = T::UNDEFINED;
     std::string key; // printable locator, also the key of the element in the printed document
+    std::string hkey; // positional locator (what the annotator's hash sees: positions, not names or objects)
     std::string id;
     bool exists = true; // the XML representation has an element for it (completeness is demanded)
     bool printed = true; // printModel writes an element for it
@@ -165,6 +166,7 @@ Index traverse(const ModelPtr &m)
         Slot s;
         s.type = T::IMPORT;
         s.key = "import:" + firstUser;
+        s.hkey = "i" + std::to_string(seenImports.size());
         s.id = imp->id();
         s.imp = imp;
         out.push_back(s);
@@ -173,6 +175,7 @@ Index traverse(const ModelPtr &m)
         Slot s;
         s.type = T::MODEL;
         s.key = "model";
+        s.hkey = "m";
         s.id = m->id();
         s.model = m;
         out.push_back(s);
@@ -182,6 +185,7 @@ Index traverse(const ModelPtr &m)
         Slot s;
         s.type = T::UNITS;
         s.key = "units:" + units->name();
+        s.hkey = "U" + std::to_string(u);
         s.id = units->id();
         s.units = units;
         out.push_back(s);
@@ -189,6 +193,7 @@ Index traverse(const ModelPtr &m)
             Slot k;
             k.type = T::UNIT;
             k.key = "unit:" + units->name() + "#" + std::to_string(i);
+            k.hkey = "U" + std::to_string(u) + "u" + std::to_string(i);
             k.id = units->unitId(i);
             k.units = units;
             k.index = i;
@@ -198,14 +203,35 @@ Index traverse(const ModelPtr &m)
         importSlot(units->importSource(), "units:" + units->name());
     }
     std::vector<ComponentPtr> comps = allComponents(m);
-    bool anyHierarchy = false;
+    std::vector<std::string> paths;
     for (const auto &c : comps) {
+        // position path of the component: index among its siblings, prefixed by the path of its parent
+        std::string path;
+        ComponentPtr cur = c;
+        while (cur != nullptr) {
+            auto parent = std::dynamic_pointer_cast<ComponentEntity>(cur->parent());
+            size_t pos = 0;
+            for (size_t i = 0; parent != nullptr && i < parent->componentCount(); ++i) {
+                if (parent->component(i) == cur) {
+                    pos = i;
+                }
+            }
+            path = "c" + std::to_string(pos) + path;
+            cur = std::dynamic_pointer_cast<Component>(cur->parent());
+        }
+        paths.push_back(path);
+    }
+    bool anyHierarchy = false;
+    for (size_t compIndex = 0; compIndex < comps.size(); ++compIndex) {
+        const auto &c = comps[compIndex];
+        const std::string &path = paths[compIndex];
         bool top = std::dynamic_pointer_cast<Model>(c->parent()) != nullptr;
         bool inHierarchy = !top || c->componentCount() > 0;
         anyHierarchy = anyHierarchy || inHierarchy;
         Slot s;
         s.type = T::COMPONENT;
         s.key = "component:" + c->name();
+        s.hkey = path;
         s.id = c->id();
         s.comp = c;
         out.push_back(s);
@@ -213,6 +239,7 @@ Index traverse(const ModelPtr &m)
         Slot r;
         r.type = T::COMPONENT_REF;
         r.key = "component_ref:" + c->name();
+        r.hkey = path + "ce";
         r.id = c->encapsulationId();
         r.comp = c;
         r.exists = inHierarchy;
@@ -223,6 +250,7 @@ Index traverse(const ModelPtr &m)
             Slot k;
             k.type = T::VARIABLE;
             k.key = "variable:" + c->name() + "/" + var->name();
+            k.hkey = path + "v" + std::to_string(v);
             k.id = var->id();
             k.comp = c;
             k.v1 = var;
@@ -235,6 +263,7 @@ Index traverse(const ModelPtr &m)
             Slot k;
             k.type = T::RESET;
             k.key = "reset:" + base;
+            k.hkey = path + "r" + std::to_string(ri);
             k.id = reset->id();
             k.comp = c;
             k.reset = reset;
@@ -243,6 +272,7 @@ Index traverse(const ModelPtr &m)
             Slot tv = k;
             tv.type = T::TEST_VALUE;
             tv.key = "test_value:" + base;
+            tv.hkey = k.hkey + "tv";
             tv.id = reset->testValueId();
             tv.exists = !reset->testValue().empty() || !tv.id.empty();
             tv.printed = k.printed && tv.exists;
@@ -250,6 +280,7 @@ Index traverse(const ModelPtr &m)
             Slot rv = k;
             rv.type = T::RESET_VALUE;
             rv.key = "reset_value:" + base;
+            rv.hkey = k.hkey + "rv";
             rv.id = reset->resetValueId();
             rv.exists = !reset->resetValue().empty() || !rv.id.empty();
             rv.printed = k.printed && rv.exists;
@@ -311,6 +342,7 @@ Index traverse(const ModelPtr &m)
         Slot s;
         s.type = T::ENCAPSULATION;
         s.key = "encapsulation";
+        s.hkey = "me";
         s.id = m->encapsulationId();
         s.model = m;
         s.exists = anyHierarchy;
@@ -424,7 +456,7 @@ struct World
         std::string s;
         for (const auto &sl : ix.slots) {
             if (!hashBlind(sl.type)) {
-                s += sl.key + "=" + sl.id + ";";
+                s += sl.hkey + "=" + sl.id + ";";
             }
         }
         return s;
@@ -600,7 +632,7 @@ std::string doEdit(Src &src, World &w)
         default: break;
         }
     }
-    unsigned kind = static_cast<unsigned>(src.below(14));
+    unsigned kind = static_cast<unsigned>(src.below(15));
     auto name = [&](const char *p) { return std::string(p) + std::to_string(++w.freshName); };
     switch (kind) {
     case 1: { // add a variable
@@ -864,6 +896,38 @@ std::string doEdit(Src &src, World &w)
         w.lastEditGroup = "add";
         w.log << "  edit import component " << comp->name() << " import id='" << id << "'\n";
         return "add-import";
+    }
+    case 14: { // replace the last variable of a component by a new object with the same id (same position, same id)
+        std::vector<ComponentPtr> cand;
+        for (const auto &cp : comps) {
+            if (cp->variableCount() == 0 || cp->variable(cp->variableCount() - 1)->id().empty()) {
+                continue;
+            }
+            auto last = cp->variable(cp->variableCount() - 1);
+            bool referenced = false;
+            for (size_t i : resetSlots) {
+                referenced = referenced || ix.slots[i].reset->variable() == last || ix.slots[i].reset->testVariable() == last;
+            }
+            if (!referenced) {
+                cand.push_back(cp);
+            }
+        }
+        if (cand.empty()) {
+            break;
+        }
+        auto comp = src.pick(cand);
+        auto old = comp->variable(comp->variableCount() - 1);
+        unlinkVariable(w, old);
+        normaliseConnections(w, ix, nullptr, nullptr, "");
+        w.keepAlive.push_back(old);
+        comp->removeVariable(comp->variableCount() - 1);
+        auto v = Variable::create(name("zv"));
+        v->setUnits("dimensionless");
+        v->setId(old->id());
+        comp->addVariable(v);
+        w.lastEditGroup = "replace";
+        w.log << "  edit replace variable " << comp->name() << "/" << old->name() << " by new variable " << v->name() << " with the same id '" << v->id() << "'\n";
+        return "replace-variable";
     }
     default: break;
     }
